@@ -57,15 +57,15 @@ type Profile struct {
 	// AliasDefaults: primitive alias types may declare a Default on the type
 	// itself; attributes of that type inherit it
 	AliasDefaults bool
-	Meta         bool
-	AllVerbs     bool
-	PrimPayloads bool // primitive / array / map payloads and results
-	Extend       bool
-	NoBodyVerbs  bool // GET/DELETE/HEAD endpoints whose payload is fully mapped to params
-	Examples     bool
-	ParamHeavy   bool // favour path/query/header/cookie mappings and arrays of primitives
-	RespHeavy    bool // favour explicit responses: headers, cookies, tags, result types
-	ViewHeavy    bool // most user types are result types with several views; results are result types
+	Meta          bool
+	AllVerbs      bool
+	PrimPayloads  bool // primitive / array / map payloads and results
+	Extend        bool
+	NoBodyVerbs   bool // GET/DELETE/HEAD endpoints whose payload is fully mapped to params
+	Examples      bool
+	ParamHeavy    bool // favour path/query/header/cookie mappings and arrays of primitives
+	RespHeavy     bool // favour explicit responses: headers, cookies, tags, result types
+	ViewHeavy     bool // most user types are result types with several views; results are result types
 	// Avoid lists open known findings (quirk IDs) whose input class the
 	// generator must not emit; every avoidance is counted.
 	Avoid map[string]bool
@@ -568,6 +568,13 @@ func (g *G) attr(depth int, self string) *m.Attr {
 	}
 	if g.p.Defaults && rapid.IntRange(0, 4).Draw(t, "hasdefault") == 0 {
 		g.setDefault(a)
+	}
+	if a.Type.Kind == m.User && g.p.ViewHeavy {
+		// a view chosen at the type level: Attribute("x", T, func(){ View("tiny") })
+		if ut := g.d.TypeByName(a.Type.User); ut != nil && ut.Result && ut.CollectionOf == "" && len(ut.Views) > 1 && ut.Name != self && rapid.IntRange(0, 3).Draw(t, "typelevelview") == 0 {
+			a.View = ut.Views[rapid.IntRange(0, len(ut.Views)-1).Draw(t, "whichtypeview")].Name
+			g.feat("type-level-nested-view")
+		}
 	}
 	if a.Type.Kind == m.User && a.Default == nil {
 		if ut := g.d.TypeByName(a.Type.User); ut != nil && ut.Attr != nil && ut.Attr.Type.Kind != m.Object && ut.Attr.Type.Kind != m.User && ut.Attr.Default != nil {
